@@ -154,16 +154,25 @@ class AuthServer(F.ScriptedServer):
         if self.glog is not None:
             self.glog.append(("s", "cb") + entry[:2])
 
-    def _res(self, query_ok=False):
-        c = self.cur
+    def _letter(self):
+        """(scripted answer, index of the packet of the current event being processed)"""
+        c, i = self.cur, -1
         if self.answers is not None:
             i = self.rx_count() - 1
             c = self.answers[i] if 0 <= i < len(self.answers) else R.F
+        return c, i
+
+    def _answer(self, name, username, query_ok=False):
+        """Log (callback, username, answer letter) and return the paramiko-level answer."""
+        c, i = self._letter()
+        if c == R.Q and not query_ok:
+            c = R.F
+        self._note(name, username, c, i)
         if c == R.S:
             return AUTH_SUCCESSFUL
         if c == R.P:
             return AUTH_PARTIALLY_SUCCESSFUL
-        if c == R.Q and query_ok:
+        if c == R.Q:
             return InteractiveQuery("login", "answer", ("Password: ", False))
         return AUTH_FAILED
 
@@ -171,32 +180,25 @@ class AuthServer(F.ScriptedServer):
         return self.gss
 
     def check_auth_none(self, username):
-        self._note("auth_none", username)
-        return self._res()
+        return self._answer("auth_none", username)
 
     def check_auth_password(self, username, password):
-        self._note("auth_password", username, password)
-        return self._res()
+        return self._answer("auth_password", username)
 
     def check_auth_publickey(self, username, key):
-        self._note("auth_publickey", username, key.get_name())
-        return self._res()
+        return self._answer("auth_publickey", username)
 
     def check_auth_interactive(self, username, submethods):
-        self._note("auth_interactive", username)
-        return self._res(True)
+        return self._answer("auth_interactive", username, True)
 
     def check_auth_interactive_response(self, responses):
-        self._note("auth_interactive_response", None, list(responses)[:4])
-        return self._res(True)
+        return self._answer("auth_interactive_response", None, True)
 
     def check_auth_gssapi_with_mic(self, username, gss_authenticated=AUTH_FAILED, cc_file=None):
-        self._note("auth_gssapi_with_mic", username, gss_authenticated)
-        return self._res()
+        return self._answer("auth_gssapi_with_mic", username)
 
     def check_auth_gssapi_keyex(self, username, gss_authenticated=AUTH_FAILED, cc_file=None):
-        self._note("auth_gssapi_keyex", username, gss_authenticated)
-        return self._res()
+        return self._answer("auth_gssapi_keyex", username)
 
     # connection layer (C15): log through _note so that the global order is available
     def check_channel_request(self, kind, chanid):
@@ -307,11 +309,36 @@ def other_algorithm(algorithm):
                 algorithm, algorithm + "-cert-v01@openssh.com")
 
 
+_captured = {}
+
+
+def captured_real_request(keykind, user):
+    """A genuine USERAUTH_REQUEST "publickey" as paramiko's own client code signs and sends it, recorded
+    from ANOTHER complete session (own key exchange, own session id) against an accepting server.
+    Must be called inside a scheduler run; cached per process (it is only bytes)."""
+    ck = (keykind, user)
+    if ck not in _captured:
+        srv = F.ScriptedServer(publickey=AUTH_SUCCESSFUL)
+        p = F.Pair(server=srv).start()
+        try:
+            p.tc.auth_publickey(user, key(keykind))
+            raw = [r for (t, r) in p.tc.packetizer.sent if t == MSG_USERAUTH_REQUEST][-1]
+            if not p.ts.is_authenticated():
+                raise RuntimeError("recording session for replay did not authenticate")
+        finally:
+            p.close()
+        _captured[ck] = bytes(raw)
+    return _captured[ck]
+
+
 def publickey_request(session_id, user, service, keykind, algorithm, sigvar):
     """USERAUTH_REQUEST "publickey" whose *request fields* are always consistent; `sigvar` says
     which data the attached signature was really made over (R.SIG_VARIANTS)."""
     k = key(keykind)
     keyblob = k.asbytes()
+    if sigvar == "replayed":
+        raw = captured_real_request(keykind, user)
+        return F.msg(MSG_USERAUTH_REQUEST, ("raw", raw[1:]))
     m = F.msg(MSG_USERAUTH_REQUEST, ("str", user.encode()), ("str", service.encode()),
               ("str", b"publickey"))
     if sigvar == "probe":
@@ -597,6 +624,17 @@ def agrees(expect, got):
     return e == got
 
 
+def spread_pin():
+    """pmap `init`: core.pin(w) puts worker w of EVERY concurrently running check on CPU w, so several
+    checks running with few workers all fight for CPUs 0..k.  Re-pin to a CPU derived from the pid
+    (still one CPU per worker, which keeps baton hand-offs cheap)."""
+    if core.ALL_CPUS:
+        try:
+            os.sched_setaffinity(0, {core.ALL_CPUS[os.getpid() % len(core.ALL_CPUS)]})
+        except OSError:
+            pass
+
+
 # ------------------------------------------------------------------------------------------------
 # level-synchronous BFS with prefix replay on forked workers
 class BfsOut:
@@ -658,7 +696,7 @@ def pbfs(run, enabled, canon, judge, max_depth, chunk=12, max_states=None):
                 with open(os.path.join(lvl, "r%d.pkl" % base), "wb") as f:
                     pickle.dump(res, f)
 
-            acc = core.pmap(items, work)
+            acc = core.pmap(items, work, init=spread_pin)
             total.merge(acc)
             results = []
             for base, _ in items:
